@@ -987,7 +987,7 @@ func c18Failure(c *Ctx) {
 				continue
 			}
 			hit, only := false, true
-			for _, d := range deepDefs(v, stepFns) {
+			for _, d := range deepDefsRecords(v, stepFns) {
 				switch {
 				case d == actErr:
 					hit = true
@@ -1003,7 +1003,7 @@ func c18Failure(c *Ctx) {
 				return 1
 			}
 			// "is nil": a success only if the value is the action's error and nothing else
-			if ds := deepDefs(v, stepFns); len(ds) == 1 {
+			if ds := deepDefsRecords(v, stepFns); len(ds) == 1 {
 				return -1
 			}
 		}
